@@ -146,6 +146,9 @@ def evaluate(mod, case, st, known_open):
     st.evaluations += 1
     if out.discard:
         st.discarded += 1
+        for l in out.labels:
+            if l.startswith(("inconclusive:", "no-footprint:", "discard:")):
+                st.labels[l] += 1
         return None
     for l in out.labels:
         st.labels[l] += 1
